@@ -123,7 +123,7 @@ impl Read for AsyncReadableFile {
         buf: &mut [u8],
     ) -> Poll<Result<usize, async_std::io::Error>> {
         let this = self.get_mut();
-        let bytes_left = this.len() - this.cursor_pos;
+        let bytes_left = this.len().saturating_sub(this.cursor_pos);
         let bytes_read = std::cmp::min(buf.len() as u64, bytes_left);
         if bytes_left == 0 {
             return Poll::Ready(Ok(0));
@@ -143,19 +143,28 @@ impl Seek for AsyncReadableFile {
         pos: SeekFrom,
     ) -> Poll<Result<u64, async_std::io::Error>> {
         let this = self.get_mut();
-        let new_pos = match pos {
-            SeekFrom::Start(offset) => offset as i64,
-            SeekFrom::End(offset) => this.cursor_pos as i64 - offset,
-            SeekFrom::Current(offset) => this.cursor_pos as i64 + offset,
+        let (base, offset) = match pos {
+            SeekFrom::Start(offset) => {
+                this.cursor_pos = offset;
+                return Poll::Ready(Ok(offset));
+            }
+            SeekFrom::End(offset) => (this.len(), offset),
+            SeekFrom::Current(offset) => (this.cursor_pos, offset),
         };
-        if new_pos < 0 || new_pos >= this.len() as i64 {
-            Poll::Ready(Err(async_std::io::Error::new(
-                async_std::io::ErrorKind::InvalidData,
-                "Requested offset is outside the file!",
-            )))
+        let new_pos = if offset >= 0 {
+            base.checked_add(offset as u64)
         } else {
-            this.cursor_pos = new_pos as u64;
-            Poll::Ready(Ok(new_pos as u64))
+            base.checked_sub(offset.unsigned_abs())
+        };
+        match new_pos {
+            Some(new_pos) => {
+                this.cursor_pos = new_pos;
+                Poll::Ready(Ok(new_pos))
+            }
+            None => Poll::Ready(Err(async_std::io::Error::new(
+                async_std::io::ErrorKind::InvalidInput,
+                "invalid seek to a negative or overflowing position",
+            ))),
         }
     }
 }
